@@ -94,6 +94,7 @@ FnSigs(e) ==
             ELSE {}
           ELSE {})
     \cup (IF "vp9key" \in DOMAIN e /\ (e.vp9key = "key") # Vp9IsKey(d) THEN {FSig("C04", "KeyDetect", "is_vp9_keyframe", "differs")} ELSE {})
+    \cup (IF "vp9valid" \in DOMAIN e /\ e.vp9valid # Vp9Marker(d) THEN {FSig("X01", "Vp9Valid", "is_valid_vp9_frame", IF e.vp9valid THEN "accepts-without-marker" ELSE "rejects-marker")} ELSE {})   \* beyond the list
     \cup (IF "opusvalid" \in DOMAIN e /\ e.opusvalid # ValidOpus(d) THEN {FSig("C04", "OpusValid", "is_valid_opus_packet", IF e.opusvalid THEN "accepts-invalid" ELSE "rejects-valid")} ELSE {})
     \cup (IF "opussamples" \in DOMAIN e /\ e.opussamples # (IF ValidOpus(d) THEN PacketSamples(d) ELSE -1)
           THEN {FSig("C04", "OpusValid", "opus_packet_samples", "value")} ELSE {})
